@@ -178,6 +178,7 @@ func checkC13(c *Ctx) {
 	c.checkM3BucketIdentity("O7 bucket-identity")
 	// O8: a metric is emitted with its own tags (shared with C12 O7)
 	c.checkSharedTagSlices("O8 shared-tags")
+	c.checkPublishedNotRecycled("O8 published-not-recycled")
 
 	// ---- O5 clock initialised before the goroutines start ---------------------------------------
 	if ctor := c.fn(pk, "", "NewReporter"); ctor != nil {
